@@ -45,7 +45,8 @@ func c11body(maxConns, nStanzas int) func() {
 	return func() {
 		var plan []c11conn
 		cur := 0
-		s := newSess(sessOpts{sm: true, smResume: true, serverCfg: func(k int, c *negCfg) {
+		ackedOnSession := 0 // what the server acknowledged on the current stream-managed session (and repeats in <resumed h=>)
+		s := newSess(sessOpts{sm: true, smResume: true, resumedH: func() int { return ackedOnSession }, serverCfg: func(k int, c *negCfg) {
 			if k < len(plan) {
 				c.sm = plan[k].smAdv
 			}
@@ -192,9 +193,19 @@ func c11body(maxConns, nStanzas int) func() {
 					refCount = -1 << 20 // counts on a session without stream management are not asserted
 				}
 			}
+			if r.EnableOK && !resumed {
+				ackedOnSession = 0
+			}
 			if r.EnableOK || resumed {
 				_ = s.cl.Send(stanza.Message{Attrs: stanza.Attrs{To: "peer@example.org", Id: fmt.Sprintf("out%d", cur)}, Body: "held"})
 				vrt.WaitIdle()
+				if r.EnableOK && !resumed && vrt.ChooseFree("ack-presence", 2) == 1 {
+					// the server acknowledges the first stanza of the session (the initial presence) only; it
+					// will repeat that count in a later <resumed h='1'/>, which must not release anything more
+					sc.send("<a xmlns='urn:xmpp:sm:3' h='1'/>")
+					ackedOnSession = 1
+					vrt.WaitIdle()
+				}
 			}
 			sc.close()
 			vrt.WaitIdle()
